@@ -167,3 +167,99 @@ func sameSliceValue(a, b ssa.Value) bool {
 	}
 	return false
 }
+
+// R-CONSTIDX — b[k] with a constant k needs k+1 bytes: in proto, thrift and iso8601 (json's scanners
+// have R-CONSTINDEX and R-RELINDEX) every constant index into a slice is covered by the length
+// interval of the dominating tests, a constant-length window, or a listed invariant.
+func init() {
+	Register(&Rule{
+		ID:    "R-CONSTIDX",
+		Doc:   "every constant index x[k] into a slice (not an array) in proto, thrift and iso8601: the dominating branch edges give len(x) > k (including tests written on another load of the same field), or x is a constant-length window, or the site is listed with the invariant that bounds it",
+		Props: []string{"C07", "C08", "C18", "C16"},
+		Min:   map[string]int{"C07": 2, "C18": 2},
+		Run:   runConstIdx,
+	})
+}
+
+// constIdxInvariants: site -> invariant.
+var constIdxInvariants = map[string]string{}
+
+func runConstIdx(c *core.Ctx) []core.Obligation {
+	b := newOb(c, "R-CONSTIDX")
+	fns := c.RepoFunctions()
+	sort.Slice(fns, func(i, j int) bool { return shortName(fns[i]) < shortName(fns[j]) })
+	n := 0
+	for _, fn := range fns {
+		if fn.Blocks == nil || fn.Pkg == nil || fn.Synthetic != "" {
+			continue
+		}
+		var props []string
+		switch fn.Pkg.Pkg.Name() {
+		case "proto":
+			props = []string{"C07", "C16"}
+		case "thrift":
+			props = []string{"C08"}
+		case "iso8601":
+			props = []string{"C18"}
+		default:
+			continue
+		}
+		// only the functions that consume input (writes are R-BUFWRITE's)
+		ln := strings.ToLower(fn.Name())
+		if fn.Parent() != nil {
+			ln = strings.ToLower(fn.Parent().Name())
+		}
+		if !(strings.Contains(ln, "decode") || strings.Contains(ln, "parse") || strings.Contains(ln, "read") || strings.Contains(ln, "skip") || strings.Contains(ln, "scan") || strings.Contains(ln, "valid")) {
+			continue
+		}
+		count := map[int64]int{}
+		for _, blk := range fn.Blocks {
+			for _, in := range blk.Instrs {
+				ia, ok := in.(*ssa.IndexAddr)
+				if !ok {
+					continue
+				}
+				k, isK := constInt(ia.Index)
+				if !isK || k < 0 {
+					continue
+				}
+				if !isSliceType(ia.X.Type()) {
+					continue
+				}
+				n++
+				count[k]++
+				name := shortName(fn)
+				key := fmt.Sprintf("constidx:%s:[%d]", closureIndex.ReplaceAllString(name, ""), k)
+				if count[k] > 1 {
+					key += fmt.Sprintf("#%d", count[k])
+				}
+				proven := false
+				if lo, _, excl := lenInterval(ia.X, blk); lo != nil && lo.IsInt64() && lo.Int64() > k {
+					proven = true
+				} else if k == 0 && excl[0] {
+					proven = true
+				}
+				if !proven && lenAtLeast(ia.X, k+1, blk) {
+					proven = true
+				}
+				if !proven {
+					if how, ok := provenLen(c, ia.X, k+1, blk, 0); ok && how != "" {
+						proven = true
+					}
+				}
+				switch {
+				case proven:
+					b.addP(props, core.Discharged, key, c.InstrPos(ia), fmt.Sprintf("len > %d on every path to the access", k))
+				case constIdxInvariants[key] != "":
+					b.addP(props, core.Discharged, key, c.InstrPos(ia), "invariant: "+constIdxInvariants[key])
+				default:
+					b.addP(props, core.Violation, key, c.InstrPos(ia), fmt.Sprintf("%s reads or writes element %d of a slice that the dominating tests do not show to hold %d element(s): input that ends at that point (a buffer cut after the first byte of a multi-byte varint) panics with index out of range", name, k, k+1))
+				}
+			}
+		}
+	}
+	if n == 0 {
+		b.addP([]string{"C07", "C08", "C18"}, core.Undecided, "constidx:-", "-", "no constant index found")
+	}
+	return b.out
+}
